@@ -23,6 +23,16 @@ type resetSpec struct {
 	// head fields of other specified types: a chain passing through one of
 	// them after its own head belongs to that type's specification
 	Boundary map[*types.Var]bool
+	// Nested maps a boundary field to the specification of the type it
+	// belongs to (used for the nested-reset obligation)
+	Nested map[*types.Var]*nestedSpec
+}
+
+// nestedSpec is what an owner needs to know about a specified type it embeds.
+type nestedSpec struct {
+	Type   string
+	Resets map[string]bool // FuncKeys of the type's reset functions
+	Cover  *chainSet       // chains (relative to Type) its reset re-establishes
 }
 
 func baseFuncKey(fn *ssa.Function) string {
@@ -240,6 +250,11 @@ func runResetRule(c *Ctx, rule string, ci *chainIndex, spec resetSpec) {
 	whole := map[string]map[string]*opWrite{} // parent chain -> leaf chain -> writers
 	wholePos := map[string]token.Pos{}
 	nOps := 0
+	type nestedWrite struct {
+		w chainWrite
+		k int
+	}
+	var nestedWrites []nestedWrite
 	for _, w := range ci.writes {
 		if w.Fresh {
 			continue
@@ -261,6 +276,16 @@ func runResetRule(c *Ctx, rule string, ci *chainIndex, spec resetSpec) {
 			}
 		}
 		if foreign {
+			if w.Fresh || closureKeys[FuncKey(w.Fn)] || ctor[baseFuncKey(w.Fn)] {
+				continue
+			}
+			if w.Via != nil && (closureKeys[FuncKey(w.Via)] || ctor[baseFuncKey(w.Via)]) {
+				continue
+			}
+			if _, ok := spec.IgnoreFns[baseFuncKey(w.Fn)]; ok {
+				continue
+			}
+			nestedWrites = append(nestedWrites, nestedWrite{w, k})
 			continue
 		}
 		fk := FuncKey(w.Fn)
@@ -382,9 +407,132 @@ func runResetRule(c *Ctx, rule string, ci *chainIndex, spec resetSpec) {
 			c.Fail(rule, okey, wholePos[pk], "%s is overwritten as a whole by operation(s) %s; of its fields {%s} are neither re-established by any function reachable from %s nor exempt: values established at construction are lost for the next row group / after Reset", pk, fnList(fns), strings.Join(uncovered, ", "), strings.Join(spec.Reset, ", "))
 		}
 	}
+	// Nested reset: state of an embedded specified type T that an operation
+	// of this type writes through field path g must be re-established either
+	// by this type's reset (which then has to reach T's reset through g) or
+	// by the operation itself calling T's reset on g before it returns.
+	type nestedObl struct {
+		pos     token.Pos
+		inner   string
+		fns     map[string]bool
+		missing map[string]bool // functions that neither rely on reset nor reset g themselves
+		chains  map[string]bool
+	}
+	nobl := map[string]*nestedObl{}
+	for _, nw := range nestedWrites {
+		w, k := nw.w, nw.k
+		ch := w.Chain[k:]
+		j := -1
+		for i := 1; i < len(ch); i++ {
+			if spec.Boundary[ch[i]] && !heads[ch[i]] {
+				j = i
+				break
+			}
+		}
+		if j < 0 {
+			continue
+		}
+		ns := spec.Nested[ch[j]]
+		if ns == nil {
+			continue
+		}
+		sameReset := false
+		for _, r := range spec.Reset {
+			if ns.Resets[r] {
+				sameReset = true
+			}
+		}
+		if sameReset {
+			continue // a pointer back to the object whose reset is this type's reset
+		}
+		if _, ok := ns.Cover.covers(ch[j:]); !ok {
+			continue // T's own reset does not re-establish it: T's specification decides (exempt or reported there)
+		}
+		if exemptOf(ch[:j]) != "" {
+			continue
+		}
+		key := chainString(p, ch[:j])
+		o := nobl[key]
+		if o == nil {
+			o = &nestedObl{pos: w.Pos, inner: ns.Type, fns: map[string]bool{}, missing: map[string]bool{}, chains: map[string]bool{}}
+			nobl[key] = o
+		}
+		o.fns[FuncKey(w.Fn)] = true
+		if _, ok := cover.covers(ch); ok {
+			continue
+		}
+		// deep paths exceed the composition depth of the cover: accept when
+		// the reset closure contains T's reset and writes below the same path
+		if _, below := cover.coversBelow(ch[:j]); below && closureHas(closureKeys, ns.Resets) {
+			continue
+		}
+		if fnResetsNested(w.Fn, w.Root, w.Chain[:k+j], ns.Resets) {
+			continue
+		}
+		o.missing[FuncKey(w.Fn)] = true
+		o.chains[chainString(p, ch)] = true
+	}
+	keys = keys[:0]
+	for k := range nobl {
+		keys = append(keys, k)
+	}
+	sort.Strings(keys)
+	for _, key := range keys {
+		o := nobl[key]
+		okey := spec.Type + ": " + key + " (nested " + o.inner + ")"
+		if len(o.missing) == 0 {
+			c.Pass(rule, okey, o.pos, "%s state written through %s by %s is re-established by reset, or by the writing operation calling the %s reset itself", o.inner, key, fnList(o.fns), o.inner)
+		} else {
+			c.Fail(rule, okey, o.pos, "%s writes %s state through %s (%s) but no function reachable from %s resets it and the operation does not call the %s reset on %s itself: the state survives into the next use of the object", fnList(o.missing), o.inner, key, fnList(o.chains), strings.Join(spec.Reset, ", "), o.inner, key)
+		}
+	}
+	c.Stats[rule+"."+spec.Type+".nested_paths"] = len(nobl)
+
 	for k := range spec.Exempt {
 		if !usedEx[k] {
 			c.Note("%s %s: exemption %q matches no unreset state on this tree", rule, spec.Type, k)
 		}
 	}
+}
+
+// fnResetsNested: does fn call (directly or deferred) one of the reset
+// functions on the object reached from root through chain?
+func fnResetsNested(fn *ssa.Function, root ssa.Value, chain []*types.Var, resets map[string]bool) bool {
+	found := false
+	allCalls(fn, true, func(_ *ssa.Function, call ssa.CallInstruction) {
+		cc := call.Common()
+		callee := cc.StaticCallee()
+		if callee == nil || len(cc.Args) == 0 || !resets[baseFuncKey(callee)] {
+			return
+		}
+		fields, r, _ := fieldChain(cc.Args[0])
+		if root != nil && r != root {
+			if _, isFree := r.(*ssa.FreeVar); !isFree {
+				return
+			}
+		}
+		if len(fields) != len(chain) {
+			return
+		}
+		for i := range fields {
+			if fields[i] != chain[i] {
+				return
+			}
+		}
+		found = true
+	})
+	return found
+}
+
+func closureHas(closureKeys map[string]bool, resets map[string]bool) bool {
+	for k := range closureKeys {
+		b := k
+		if i := strings.Index(b, "$"); i >= 0 {
+			b = b[:i]
+		}
+		if resets[b] {
+			return true
+		}
+	}
+	return false
 }
